@@ -123,6 +123,14 @@ def frame_check(ip, case, entry, final, tag):
             allowed_cells.add(base.cid)
     if case.generator and "out" in final.env and isinstance(final.env["out"], Ref):
         allowed_cells.add(final.env["out"].cid)
+    for m in (case.ghost.get("suspended_changes") or ()):
+        # fields that OTHER code may re-bind while the generator is suspended (stmts.suspend_havoc): not this function's frame
+        try:
+            kind, base, field = places_of(ip, entry, entry.env, m)
+        except Exception:
+            continue
+        if kind == "field" and isinstance(base, Ref):
+            allowed_fields.add((base.cid, field))
     seen = set()
     todo = [v for k, v in entry.env.items()]
     while todo:
